@@ -35,7 +35,7 @@ static CUR_G: Mutex<String> = Mutex::new(String::new());
 static CUR_I: Mutex<String> = Mutex::new(String::new());
 static LAST_PANIC: Mutex<String> = Mutex::new(String::new());
 /// CPU seconds one case may take before the monitor declares a hang (normal: microseconds .. 2 s)
-static HANG_CPU_S: AtomicU64 = AtomicU64::new(40);
+static HANG_CPU_S: AtomicU64 = AtomicU64::new(25);
 
 pub fn set_grammar(desc: String) {
     *CUR_G.lock().unwrap() = desc;
@@ -226,6 +226,8 @@ pub fn sat_basis() -> Basis {
         b.ctors.push(ctor(1, move |mut k| G::rep(k.remove(0), lo, hi, flav)));
     }
     b.ctors.push(ctor(2, |k| G::new(Op::GroupArr, k)));
+    // a choice over a list that is empty at run time (e.g. an empty keyword table): always fails
+    b.leaves.push(G::new(Op::Choice, vec![]));
     b
 }
 
@@ -350,6 +352,7 @@ pub fn rand_basis() -> Basis {
     b.leaves.push(G::just('𝄞'));
     b.leaves.push(G::just_seq("é\u{301}"));
     b.leaves.push(G::set(Op::NoneOf, "a\0"));
+    b.leaves.push(G::new(Op::Choice, vec![]));
     for (lo, hi, flav) in [(0u8, Some(1u8), Flav::Arr2), (1, Some(2), Flav::Arr3), (0, Some(2), Flav::Arr3)] {
         b.ctors.push(ctor(1, move |mut k| G::rep(k.remove(0), lo, hi, flav)));
     }
@@ -1051,7 +1054,7 @@ pub fn run(cx: &RunCtx) -> i32 {
         acc,
         Finish {
             rule: format!(
-                "all work in {nshards} child processes. (sat) every grammar with <= {} nodes of the C01/C02 class (plus a failing custom leaf) and, for every node of it, the node wrapped in map_err / labelled / labelled.as_context / memoized / recover_with(via_parser(empty|any|failing), skip_until, skip_then_retry_until, nested_delimiters) and selected pairs of wrappers, x every input <= {} over {{a,b,é}} x error types EmptyErr (the zero-sized default), Rich, Cheap, Simple x parse and check; (rand) {} random grammars of 3..14 nodes of the broadest class (recovery, validation, labels, memoization, Ext, state, context, nested inputs) with random wrappers, on arbitrary-Unicode inputs (NUL, combining marks, ZWJ, astral, noncharacters) and every prefix of one input, on &str and in turn &[char] / Stream / mapped token inputs; (text) {} batches of 12 arbitrary-Unicode strings + 8 arbitrary byte strings + all byte prefixes of a UTF-8 string through 14 statically typed text grammars on &str (ident, int, digits, keyword, whitespace, newline, regex, multi-byte just, filter, string literals with skip_until recovery, a recursive bracket tree with nested_delimiters and skip_then_retry_until recovery, memoized/labelled/map_err stacks), 7 on &[u8], 2 on Graphemes, with Rich and EmptyErr (every 4th batch also Cheap and Simple); (scale) 9 families at n/4, n/2, n = {} bytes. Per run: no panic (caught per case), no more than 10^7 logical steps (inspector: next/save/rewind) unless the reference model is itself over budget, no output => >= 1 error, ParseResult accessor contract, every error span and every returned slice inside the input, on character boundaries and equal to input[span]; per child: exit status / signal, CPU-time hang monitor per case (40 CPU-s), wall-clock watchdog (inconclusive); scale: steps at most x2.3 when the input doubles. Non-trivial: runs that reject their input",
+                "all work in {nshards} child processes. (sat) every grammar with <= {} nodes of the C01/C02 class (plus a failing custom leaf) and, for every node of it, the node wrapped in map_err / labelled / labelled.as_context / memoized / recover_with(via_parser(empty|any|failing), skip_until, skip_then_retry_until, nested_delimiters) and selected pairs of wrappers, x every input <= {} over {{a,b,é}} x error types EmptyErr (the zero-sized default), Rich, Cheap, Simple x parse and check; (rand) {} random grammars of 3..14 nodes of the broadest class (recovery, validation, labels, memoization, Ext, state, context, nested inputs) with random wrappers, on arbitrary-Unicode inputs (NUL, combining marks, ZWJ, astral, noncharacters) and every prefix of one input, on &str and in turn &[char] / Stream / mapped token inputs; (text) {} batches of 12 arbitrary-Unicode strings + 8 arbitrary byte strings + all byte prefixes of a UTF-8 string through 14 statically typed text grammars on &str (ident, int, digits, keyword, whitespace, newline, regex, multi-byte just, filter, string literals with skip_until recovery, a recursive bracket tree with nested_delimiters and skip_then_retry_until recovery, memoized/labelled/map_err stacks), 7 on &[u8], 2 on Graphemes, with Rich and EmptyErr (every 4th batch also Cheap and Simple); (scale) 9 families at n/4, n/2, n = {} bytes. Per run: no panic (caught per case), no more than 10^7 logical steps (inspector: next/save/rewind) unless the reference model is itself over budget, no output => >= 1 error, ParseResult accessor contract, every error span and every returned slice inside the input, on character boundaries and equal to input[span]; per child: exit status / signal, CPU-time hang monitor per case (25 CPU-s), wall-clock watchdog (inconclusive); scale: steps at most x2.3 when the input doubles. Non-trivial: runs that reject their input",
                 if cx.thorough() { 4 } else { 3 },
                 if cx.thorough() { 4 } else { 3 },
                 pl.n_rand,
@@ -1062,7 +1065,7 @@ pub fn run(cx: &RunCtx) -> i32 {
             exhaustive_note: "saturation part: complete below the stated bounds".into(),
             assumptions: vec![
                 "side condition of the property: repetition items / separators / skip steps consume input (enforced by a static nullability analysis of the generated grammars)".into(),
-                "'polynomial time' is decided on logical steps (10^7 budget for inputs <= 64 tokens; linear growth for the scaling families) and on CPU time per case (40 s where microseconds are normal), never on wall-clock".into(),
+                "'polynomial time' is decided on logical steps (10^7 budget for inputs <= 64 tokens; linear growth for the scaling families) and on CPU time per case (25 s where microseconds are normal), never on wall-clock".into(),
                 "the stack-growth guard (stacker) is exercised natively only; Miri runs the same drivers without it (psm is FFI)".into(),
             ],
             require: vec![
